@@ -142,7 +142,7 @@ let sweep16 line =
 let parse_op17 t =
   match t.[0] with
   | 'a' -> Acquire
-  | 'd' -> DropGuard (nat_of_int (int_tail t 1))
+  | 'd' | 'u' -> DropGuard (nat_of_int (int_tail t 1))   (* u: dropped during unwinding — the same operation *)
   | 'v' -> Available (nat_of_int (int_tail t 1))
   | 'k' -> Clone
   | 'h' -> DropClone
@@ -183,7 +183,7 @@ let ops17 alive =
 let track17 alive t =
   match t.[0] with
   | 'a' -> alive @ [ true ]
-  | 'd' -> let i = int_tail t 1 in List.mapi (fun j b -> if j = i then false else b) alive
+  | 'd' | 'u' -> let i = int_tail t 1 in List.mapi (fun j b -> if j = i then false else b) alive
   | _ -> alive
 let nontriv17 s = String.contains s '^' || s.[0] = 'F'
 
